@@ -1940,12 +1940,13 @@ impl Registry {
                 return;
             }
 
-            traverse_type(
-                ctx,
-                types,
-                visible_types,
-                MetaTypeName::concrete_typename(&field.ty),
-            );
+            // a field whose type is hidden is not shown either
+            let type_name = MetaTypeName::concrete_typename(&field.ty);
+            if types.get(type_name).is_some_and(|ty| !ty.is_visible(ctx)) {
+                return;
+            }
+
+            traverse_type(ctx, types, visible_types, type_name);
             for arg in field.args.values() {
                 traverse_input_value(ctx, types, visible_types, arg);
             }
